@@ -54,9 +54,9 @@ def mc_defs(**kw):
     return "\n".join(f"MC{c} == {_set(kw.get(_KEY[c], ()))}" for c in CONST_NAMES)
 
 
-def mc_cfg(spec="Spec", perm_max=0, depth=0, drops=True, carries=False):
+def mc_cfg(spec="Spec", perm_max=0, depth=0, drops=True, carries=False, dump=True):
     lines = ["CONSTANTS"] + [f"  {c} <- MC{c}" for c in CONST_NAMES]
-    lines += [f"  PermMaxCells = {perm_max}", f"  HistDepth = {depth}",
+    lines += [f"  PermMaxCells = {perm_max}", f"  HistDepth = {depth}", f"  DumpHistories = {'TRUE' if dump else 'FALSE'}",
               f"  SetItemDropsCaches = {'TRUE' if drops else 'FALSE'}",
               f"  DerivedCarriesCaches = {'TRUE' if carries else 'FALSE'}", f"SPECIFICATION {spec}"]
     if spec == "Spec":
@@ -67,7 +67,7 @@ def mc_cfg(spec="Spec", perm_max=0, depth=0, drops=True, carries=False):
 
 
 TRACE_CFG = ("CONSTANTS\n" + "".join(f"  {c} = {{}}\n" for c in CONST_NAMES) +
-             "  PermMaxCells = 0\n  HistDepth = 0\n  SetItemDropsCaches = TRUE\n  DerivedCarriesCaches = FALSE\n"
+             "  PermMaxCells = 0\n  HistDepth = 0\n  DumpHistories = FALSE\n  SetItemDropsCaches = TRUE\n  DerivedCarriesCaches = FALSE\n"
              "SPECIFICATION TraceSpec\nPOSTCONDITION TraceAccepted\n")
 
 
@@ -147,8 +147,11 @@ def _base(api, g, tau, **kw):
     return rec
 
 
+_FILES_ROOT = None  # set by run() / replay() to a directory inside this run's own work directory
+
+
 def _files_dir():
-    d = core.WORK / "x12-files" / str(os.getpid())
+    d = (_FILES_ROOT or (core.WORK / f"x12-files-{os.getppid()}")) / str(os.getpid())
     d.mkdir(parents=True, exist_ok=True)
     return d
 
@@ -693,7 +696,7 @@ def _rot(seq, k):
 
 def tasks_mask_instance(inst, n, b, full):
     """Every public call of the mask family on one TLC-enumerated instance; parameters (storage, tick length, kernel,
-    offset, radius, buffer) rotate with the instance number n unless `full` (thorough tier: the whole product)."""
+    offset, radius, buffer) rotate with the instance number n; `full` (thorough tier): both storage forms and two offsets."""
     g, u, p = _gof(inst), inst["u"], inst["pat"]
     nat = _mach_nat(p, g["h"], g["w"])
     vals = _centres(g, u)
@@ -704,7 +707,7 @@ def tasks_mask_instance(inst, n, b, full):
     for st in (stores if full else [_rot(stores, n)]):
         ts.append(T("binned", g, u, nat, st, tau, variant=n))
         ts.append(T("counts", g, u, [nat[k] for k in u], st, [1, 2, 8][n % 3], tau))
-    for k in (b["kernels"] if full else [_rot(b["kernels"], n), _rot(b["kernels"], n // 2 + 1)]):
+    for k in [_rot(b["kernels"], n), _rot(b["kernels"], n // 2 + 1)]:
         ge, ue = _embed(g, u, k[0] // 2, k[1] // 2)
         ts.append(T("maskgrid", ge, ue, k, tau, variant=n))
     for st in (stores if full else [_rot(stores, n // 2)]):
@@ -712,13 +715,13 @@ def tasks_mask_instance(inst, n, b, full):
         ts.append(T("gq", g, u, vals, st, "is_uniform", _rot(TAUS, n), variant=n))
         if max(abs(c) for pt in vals for c in pt) <= 600:
             ts.append(T("gq", g, u, vals, st, "in_radians", 1.0, variant=n))
-        for d in (b["offsets"] if full else [_rot(b["offsets"], n)]):
+        for d in ([_rot(b["offsets"], n), _rot(b["offsets"], n // 3 + 2)] if full else [_rot(b["offsets"], n)]):
             ts.append(T("gq", g, u, vals, st, "subtracted_from", tau, d=d, variant=n))
     ts.append(T("util", "centre", tau, pts=vals))
     ts.append(T("util", "poly", _rot([0.125, 0.5, 1.0], n), pts=vals))
-    for r2 in (b["radii"] if full else [_rot(b["radii"], n)]):
-        ts.append(T("util", "within", tau, pts=vals, ctr=(g["oy"], g["ox"]), r2=r2))
-    for bf in ([0, 1, 2] if full else [n % 3]):
+    if n % 3 == 0:
+        ts.append(T("util", "within", tau, pts=vals, ctr=(g["oy"], g["ox"]), r2=_rot(b["radii"], n // 3)))
+    for bf in [n % 3]:
         ts.append(T("zoomext", g, u, nat, _rot(stores, n), bf, tau))
     return ts
 
@@ -770,8 +773,9 @@ def tasks_hist(hists, seed, per_sig=2):
         by.setdefault(hist_signature(hrec), []).append(hrec)
     ts = []
     for n, (sig, lst) in enumerate(sorted(by.items())):
+        big = max(lst, key=lambda x: (len(x["u"]), x["h"] * x["w"], _key(x)))  # most unmasked pixels: reads can differ
         for m in range(per_sig):
-            hrec = lst[(zlib.crc32(repr((sig, seed, m)).encode())) % len(lst)]
+            hrec = big if m == 0 else lst[(zlib.crc32(repr((sig, seed, m)).encode())) % len(lst)]
             g, u, kind = _gof(hrec), hrec["u"], hrec["kind"]
             needs_slim = kind == "grid" and any(s["op"] == "read" and s["q"] in ("flip", "uni") for s in hrec["steps"])
             store = "slim" if needs_slim else ["slim", "native"][(n + m) % 2]
@@ -970,7 +974,7 @@ def _describe(rec, task):
         st = [(s["op"], s["tgt"], s["q"], s["k"], s["v"]) for s in rec["steps"]]
         return f"history on one {rec['kind']} ({rec['store']}-stored) {geo} unmasked {rec['u'][:30]} steps {st[:14]}"
     if api == "util":
-        return f"{rec['fn']} " + str({k: v for k, v in rec.items() if k in ('pts', 'ctr', 'r2', 'f', 'raised', 'outp', 'out2')})[:300]
+        return f"{rec['fn']} " + str({k: v for k, v in rec.items() if k in ('pts', 'ctr', 'r2', 'f', 'raised', 'outp', 'out2', 'img', 'n4', 't', 'out4', 'ks', 'cs', 'out', 'h', 'w')})[:300]
     return f"{api}:{rec.get('ctor', '')} on {geo}"
 
 
@@ -1015,14 +1019,15 @@ def _bounds(quick):
         return dict(common, mask_frames=_frames_upto(8) + [(3, 3)], mask_geoms=[(4, 4, 0, 0), (8, 4, 6, -10)], patterns=[1],
                     frame_frames=[(h, w) for h in range(1, 5) for w in range(1, 6)],
                     frame_geoms=[(4, 4, 0, 0), (8, 12, 0, 0), (12, 4, -2, 6), (24, 12, 10, -6)], perm_max=5,
-                    hist_frames=[(2, 2), (1, 3)], hist_geoms=[(4, 8, 2, -2)], hist_depth=3, hist_per_sig=1,
+                    hist_frames=[(2, 2), (1, 3)], hist_geoms=[(4, 8, 2, -2)], hist_depth=3, hist_per_sig=2,
                     random_masks=220, random_frames=120, random_utils=80, random_histories=150)
-    return dict(common, mask_frames=_frames_upto(10) + [(3, 4), (4, 3), (2, 6), (6, 2)],
-                mask_geoms=[(4, 4, 0, 0), (8, 4, 6, -10), (12, 20, -2, 2)], patterns=[1, 2],
+    return dict(common, mask_frames=_frames_upto(10) + [(3, 4), (4, 3)],
+                mask_geoms=[(4, 4, 0, 0), (8, 4, 6, -10)], patterns=[2],
                 frame_frames=[(h, w) for h in range(1, 6) for w in range(1, 7)],
                 frame_geoms=[(4, 4, 0, 0), (8, 12, 0, 0), (12, 4, -2, 6), (24, 12, 10, -6), (12, 24, 0, 0)], perm_max=6,
-                hist_frames=[(2, 2), (1, 3), (3, 1), (2, 3)], hist_geoms=[(4, 8, 2, -2)], hist_depth=4, hist_per_sig=2,
-                random_masks=2500, random_frames=1500, random_utils=800, random_histories=2000)
+                hist_frames=[(2, 2), (1, 3), (3, 1)], hist_geoms=[(4, 8, 2, -2)], hist_depth=3, hist_per_sig=4,
+                deep_hist_frames=[(2, 2), (1, 3)], deep_hist_depth=4,
+                random_masks=2500, random_frames=1500, random_utils=800, random_histories=2500)
 
 
 def _design_counterexamples(ctx, b):
@@ -1052,9 +1057,13 @@ def run(ctx):
                     offsets=b["offsets"], radii=b["radii"])
     fam_frame = dict(frame_frames=b["frame_frames"], frame_geoms=b["frame_geoms"], pad_kernels=b["pad_kernels"], up_factors=b["up_factors"])
     fam_hist = dict(hist_frames=b["hist_frames"], hist_geoms=b["hist_geoms"])
-    jobs = [("MC_Construct2D_mask", mc_cfg("Spec"), mc_defs(**fam_mask), ncpu, False),
+    jobs = [("MC_Construct2D_mask", mc_cfg("Spec"), mc_defs(**fam_mask), ncpu, True),
             ("MC_Construct2D_frame", mc_cfg("Spec", perm_max=b["perm_max"]), mc_defs(**fam_frame), 4, True),
             ("MC_Construct2D_hist", mc_cfg("HSpec", depth=b["hist_depth"]), mc_defs(**fam_hist), 4, True)]
+
+    if b.get("deep_hist_depth"):  # longer histories: design theorems only, nothing dumped
+        jobs.append(("MC_Construct2D_hist_deep", mc_cfg("HSpec", depth=b["deep_hist_depth"], dump=False),
+                     mc_defs(hist_frames=b["deep_hist_frames"], hist_geoms=b["hist_geoms"]), ncpu, False))
 
     def mc(job):
         tag, cfg, defs, nw, cov = job
@@ -1062,7 +1071,7 @@ def run(ctx):
 
     with cf.ThreadPoolExecutor(max_workers=len(jobs) + 1) as ex:
         fneg = ex.submit(_design_counterexamples, ctx, b)
-        r_mask, r_frame, r_hist = list(ex.map(mc, jobs))
+        r_mask, r_frame, r_hist = list(ex.map(mc, jobs))[:3]
         fneg.result()
     minst = sorted((r for r in r_mask.by_kind("inst") if r["fam"] == "mask"), key=_key)
     finst = sorted((r for r in r_frame.by_kind("inst") if r["fam"] == "frame"), key=_key)
@@ -1100,6 +1109,8 @@ def run(ctx):
     rng = np.random.default_rng(ctx.seed)
     tasks += random_tasks(rng, b, ctx.seed)
 
+    global _FILES_ROOT
+    _FILES_ROOT = ctx.work / "files"
     size = 60
     order = np.random.default_rng(ctx.seed + 1).permutation(len(tasks))  # spread costly tasks over the worker groups
     tasks = [tasks[k] for k in order]
@@ -1109,7 +1120,7 @@ def run(ctx):
         for part in core.pmap(_run_tasks, groups):
             recs.extend(part)
     finally:
-        shutil.rmtree(core.WORK / "x12-files", ignore_errors=True)
+        shutil.rmtree(_FILES_ROOT, ignore_errors=True)
     ctx.replayed = len(minst) + len(finst) + len(yxvs) + len(th)
     by_api = {}
     for r in recs:
@@ -1148,6 +1159,8 @@ def run(ctx):
 
 
 def replay(ctx, rp):
+    global _FILES_ROOT
+    _FILES_ROOT = ctx.work / "files"
     t = rp["task"]
     new = run_task((t[0], t[1], t[2]))
     rej = validate(ctx, [new], [t], "X12-replay")
